@@ -338,6 +338,25 @@ impl<'a> Model<'a> {
                         height,
                     )?;
                 } else {
+                    // A dynamic array is about to be written back unevaluated, 1x1: the
+                    // values it spilled go with it (on the sheet being edited they were
+                    // removed beforehand, here the anchor may be on any sheet)
+                    if let Some(Cell::ArrayFormula {
+                        kind: ArrayKind::Dynamic,
+                        r: (width, height),
+                        ..
+                    }) = self.workbook.worksheet(sheet)?.cell(row, column).cloned()
+                    {
+                        let ws = self.workbook.worksheet_mut(sheet)?;
+                        for r in row..row + height {
+                            for c in column..column + width {
+                                if matches!(ws.cell(r, c), Some(Cell::SpillCell { a, .. }) if *a == (row, column))
+                                {
+                                    let _ = ws.cell_clear_contents(r, c);
+                                }
+                            }
+                        }
+                    }
                     // only the references change: the cell keeps its style as it is
                     let style = self.get_cell_style_index(sheet, row, column)?;
                     self.set_cell_with_formula(sheet, row, column, &formula_displaced, style)?;
